@@ -368,7 +368,12 @@ fn get_slice_reference_sequence<'c>(
         // checksum is all-zero."
         if let Some(expected_md5) = slice_header.reference_md5() {
             let interval = context.alignment_start()..=context.alignment_end();
-            let subsequence = &sequence[interval];
+            let subsequence = sequence.get(interval).ok_or_else(|| {
+                io::Error::new(
+                    io::ErrorKind::InvalidData,
+                    "invalid slice alignment interval",
+                )
+            })?;
             validate_sequence(subsequence, expected_md5)?;
         }
 
@@ -378,7 +383,9 @@ fn get_slice_reference_sequence<'c>(
             .iter()
             .find(|(id, _)| *id == block_content_id)
             .map(|(_, src)| src)
-            .expect("invalid block content ID");
+            .ok_or_else(|| {
+                io::Error::new(io::ErrorKind::InvalidData, "invalid block content ID")
+            })?;
 
         Ok(Some(ReferenceSequence::Embedded {
             reference_start: context.alignment_start(),
